@@ -13,7 +13,7 @@ SIZES6 = [0, 8, 24, 64, 65, 129]
 # poisoning policy: every carved slot costs one entry of the harness's poison log, so the 8- and 16-byte classes (51 / 25 slots per slab) are left to
 # policies 1 and 2; the poison clauses are checked on the 32- and 64-byte classes and on large frames
 SIZES_P3 = [24, 32, 33, 64, 65, 129]
-def scen(pol, ops, hs, sel0, sizes, faults=0, timeout=1500, mem=6, optional=False, sel1=None, prefill=0, presize=64):
+def scen(pol, ops, hs, sel0, sizes, faults=0, timeout=1500, mem=6, optional=False, sel1=None, prefill=0, presize=64, lockset=False):
     K = len(ops)
     name = 'p%d.%s.s%d%s%s' % (pol, '-'.join('%s%s' % (OPN[o], '' if o == 0 else h) for o, h in zip(ops, hs)), sizes[sel0], '' if sel1 is None else '.s%d' % sizes[sel1], '.fault' if faults else '')
     defs = {'K': K, 'POLICY': pol, 'UNIT_H': '"c01_slab_p%d.h"' % pol, 'NREG': 22, 'IR2C_USE_REGIONS': 1, 'IR2C_STACK_BASE': '0x400ULL',
@@ -22,6 +22,7 @@ def scen(pol, ops, hs, sel0, sizes, faults=0, timeout=1500, mem=6, optional=Fals
     if pol == 3: defs['IR2C_ACCESS_HOOK'] = 1
     if faults: defs['FAULTS'] = faults
     if sel1 is not None: defs['SEL1'] = sel1
+    if lockset: defs['LOCKSET'] = 1; defs['IR2C_ACCESS_HOOK'] = 1; name = 'lockset.' + name
     if prefill: defs['PREFILL'] = prefill; defs['PRESIZE'] = presize; name = 'fill%dx%d.' % (prefill, presize) + name
     K = len(ops)
     nscen = len(sizes) ** (K - 1 - (sel1 is not None)) * ((K + 1) if faults else 1)
@@ -31,8 +32,8 @@ def scen(pol, ops, hs, sel0, sizes, faults=0, timeout=1500, mem=6, optional=Fals
                      'scenarios in this query': nscen, 'map failure': 'at every map call position 0..%d' % K if faults else 'none', 'policy': ('page 64, ' if pol != 4 else '') + 'slab = superblock 512, 4 classes; ' + POL[pol],
                      'mode': 'concrete symbolic execution of the real code over flat word-granular memory (scenario parameters enumerated, no symbolic inputs)'},
              what='%s: first size %d, every later size from the table%s, policy %s: all clauses of C01-C04 and lock discipline after every operation' % ('/'.join(OPN[o] for o in ops), sizes[sel0], ', map() failing at every call position' if faults else '', POL[pol]))
-    if pol == 3: q.replay = 'generated'      # the poison access hook exists only in the flat-memory build
-    q.tag = {'pol': pol, 'ops': list(ops), 'faults': faults, 'K': K, 'size0': sizes[sel0], 'prefill': prefill}
+    if pol == 3 or lockset: q.replay = 'generated'      # the poison access hook exists only in the flat-memory build
+    q.tag = {'pol': pol, 'ops': list(ops), 'faults': faults, 'K': K, 'size0': sizes[sel0], 'prefill': prefill, 'lockset': lockset}
     return q
 SEQ2 = [([0, 0], [0, 0]), ([0, 1], [0, 0]), ([0, 2], [0, 0]), ([0, 3], [0, 0]), ([3, 3], [0, 0]), ([3, 1], [0, 0])]
 SEQ3 = [([0, 0, 0], [0, 0, 0]), ([0, 0, 1], [0, 0, 0]), ([0, 1, 0], [0, 0, 0]), ([0, 3, 0], [0, 0, 0]), ([0, 3, 3], [0, 0, 0]), ([0, 0, 3], [0, 0, 1]), ([0, 1, 3], [0, 0, 0]), ([0, 0, 2], [0, 0, 1])]
@@ -63,6 +64,10 @@ def all_queries(tier):
                     for s1 in (1, 3, 4): qs.append(scen(pol, ops, hs, s0, S6, faults=1, sel1=s1, timeout=2400, mem=8, optional=True))
     for (ops, hs) in SEQ2:                      # configuration with page size == superblock size (frame lookup of blocks that start on a superblock boundary)
         for s0 in ((3, 8, 10) if quick else range(12)): qs.append(scen(4, ops, hs, s0, SIZES12))
+    # lock-set discipline on every access of the translated pool code (C05): all two-operation sequences + the filled-slab scenarios, policy 1
+    for (ops, hs) in SEQ2:
+        for s0 in ((1, 3, 7, 8, 10) if quick else range(12)): qs.append(scen(1, ops, hs, s0, SIZES12, lockset=True))
+    for (pf, psz, ops, hs, s0) in PRE: qs.append(scen(1, ops, hs, s0, SIZES12, prefill=pf, presize=psz, lockset=True))
     # poisoning policy, 8-byte class (requests shorter than the allocator's link word): only alloc/free pairs, the poison log grows with every carved slot
     for s0 in (0, 1): qs.append(scen(3, [0, 1], [0, 0], s0, [0, 8, 24]))
     for s0 in (0, 1): qs.append(scen(3, [0, 3], [0, 0], s0, [0, 8, 24]))
@@ -74,7 +79,7 @@ def all_queries(tier):
 def select(tier, pred):
     return [q for q in all_queries(tier) if pred(q.tag)]
 # C01: validity/size/alignment/disjointness on every non-fault scenario of the plain policies (aligned and unaligned map)
-def queries(tier): return select(tier, lambda t: t['pol'] in (1, 2, 4) and not t['faults'])
+def queries(tier): return select(tier, lambda t: t['pol'] in (1, 2, 4) and not t['faults'] and not t['lockset'])
 def validation_queries(tier):
     v = []
     for p in (1, 2, 4):
